@@ -37,6 +37,7 @@ type citem struct {
 }
 
 type csec struct {
+	shape   string // "" : a mapping (the usual case) | "scalar" | "number" | "bool" | "list" | "emptylist": the section's value is not a mapping
 	present bool
 	listenK string
 	specs   []cspec
@@ -58,7 +59,8 @@ func ipText(class string, r *rand.Rand) string {
 	case "mc6":
 		return []string{"ff02::1:2", "FF02::1:2", "ff01::1"}[r.Intn(3)]
 	case "garbage":
-		return []string{"notanip", "300.1.1.1", "10.0.0", "2001:db8::g", "1.2.3.4.5", "fe80::1%lo%lo", "10.0.0.1%lo%eth0", "::%%lo", "fe80::1%25lo%lo"}[r.Intn(9)]
+		return []string{"notanip", "300.1.1.1", "10.0.0", "2001:db8::g", "1.2.3.4.5", "fe80::1%lo%lo", "10.0.0.1%lo%eth0", "::%%lo", "fe80::1%25lo%lo",
+			"[fe80::1]%lo", "[ff02::1:2]%lo", "[::]%", "[fe80::1]%"}[r.Intn(13)]
 	}
 	return ""
 }
@@ -116,6 +118,10 @@ func (sec csec) render(name string, r *rand.Rand) string {
 		return ""
 	}
 	var b strings.Builder
+	if sec.shape != "" {
+		// present, but not a mapping: there is no plugins list in it (abstractly: plugins absent)
+		return name + ":" + map[string]string{"scalar": " plugins", "number": " 547", "bool": " true", "list": "\n  - plugins\n  - listen", "emptylist": " []"}[sec.shape] + "\n"
+	}
 	b.WriteString(name + ":\n")
 	wrListen := func() {
 		switch sec.listenK {
@@ -404,6 +410,24 @@ func runConfig(args []string) error {
 							}
 						}
 					}
+				}
+			}
+		}
+	}
+	// (b0) a section that is present but not a mapping, next to a valid section of the other protocol
+	for _, ver := range []int{4, 6} {
+		for _, shape := range []string{"scalar", "number", "bool", "list", "emptylist"} {
+			for rep := 0; rep < 2; rep++ {
+				sec := csec{present: true, shape: shape, listenK: "absent", plugK: "absent"}
+				other := goodSection(r)
+				if rep == 1 {
+					other = absent
+				}
+				k++
+				if ver == 4 {
+					loadDoc(t, *dir, k, sec, other, ifs, r, *mutations)
+				} else {
+					loadDoc(t, *dir, k, other, sec, ifs, r, *mutations)
 				}
 			}
 		}
